@@ -328,7 +328,7 @@ def norm_block(b):
 def hcli_render(hcli, pdir):
     p = subprocess.run([hcli, "render", pdir], capture_output=True, timeout=120)
     try:
-        return json.loads(p.stdout.decode(errors="replace").strip().splitlines()[-1])
+        return json.loads(p.stdout.decode(errors="replace").strip().split("\n")[-1])
     except Exception:
         return {"error": "render helper failed: " + p.stderr.decode(errors="replace")[-300:]}
 
@@ -439,7 +439,7 @@ def snapshot(d):
 
 def hcli_parse(hcli, models, migrations):
     p = subprocess.run([hcli, "parse", "--models"] + models + ["--migrations"] + migrations, capture_output=True, timeout=120)
-    rows = [json.loads(l) for l in p.stdout.decode(errors="replace").splitlines() if l.strip()]
+    rows = [json.loads(l) for l in p.stdout.decode(errors="replace").split("\n") if l.strip()]
     return rows
 
 
@@ -816,7 +816,7 @@ def sizes(tier):
 
 def gen_evolutions(hcli, seed, count, steps):
     p = subprocess.run([hcli, "gen", "--seed", str(seed), "--count", str(count), "--steps", str(steps)], capture_output=True, timeout=600)
-    return [json.loads(l) for l in p.stdout.decode(errors="replace").splitlines() if l.strip()]
+    return [json.loads(l) for l in p.stdout.decode(errors="replace").split("\n") if l.strip()]
 
 
 def run_coq(layer_import, ty, fn_bad, fn_cls, terms, d, stem, per_shard):
